@@ -155,6 +155,16 @@ HAND = [
     ("halogen-exchange-bare", "[C:1][Cl:2].[C:3][Br:4]>>[C:1][Br:4].[C:3][Cl:2]", ["ClCCl.BrCBr", "ClCCBr", "ClCCBr.ClCCBr", "ClC(Cl)Br.BrCC"], [False, True], ["I"]),
     ("dimerisation-bare", "[C:1][SH:2].[C:3][SH:4]>>[C:1][S:2][S:4][C:3]", ["CCS.CS", "SCCS.CS", "SCC(S)CS"], [False], ["I"]),
     ("aldol-bare", "[C:1](=[O:2])[CH:3].[C:4]=[O:5]>>[C:1](=[O:2])[C:3][C:4][OH:5]", ["CC(=O)C.CC=O", "CC=O.CC=O", "O=CCC=O"], [False], ["I"]),
+    # left-hand patterns more symmetric than the rule (the difference is on the product side only) and isomorphic left
+    # components with different roles (disproportionation type): numbering / fragment order must not matter
+    ("amine-double-abstraction", "[CH2:1][N:2]([CH2:3])[CH2:4].[Cl:5].[Cl:6]>>[CH2:1][N:2]([CH:3])[CH:4].[ClH:5].[ClH:6]",
+     ["CCN(C)CCC.[Cl].[Cl]", "CCN(CC)CC.[Cl].[Cl]"], [False], ["I"]),
+    ("diol-mono-oxidation", "[CH2:1]([OH:2])[CH2:3][OH:4]>>[CH:1](=[O:2])[CH2:3][OH:4]", ["OCCO", "CC(O)CO", "OCC(O)CO"], [False], ["I"]),
+    ("tishchenko-explicit", "[C:1](=[O:2])[H:3].[C:4](=[O:5])[H:6]>>[C:1](=[O:2])[O:5][C:4]([H:3])[H:6]",
+     ["CC=O.O=Cc1ccccc1", "CC=O.CCC=O"], [False], ["E"]),
+    ("tishchenko-implicit", "[CH:1]=[O:2].[CH:3]=[O:4]>>[C:1](=[O:2])[O:4][CH2:3]", ["CC=O.O=Cc1ccccc1", "CC=O.CCC=O", "O=CCC=O"], [False], ["I"]),
+    ("cannizzaro-implicit", "[CH:1]=[O:2].[CH:3]=[O:4].[OH2:5]>>[C:1](=[O:2])[OH:5].[CH2:3][OH:4]", ["CC=O.O=Cc1ccccc1.O", "O=Cc1ccccc1.O=Cc1ccccc1.O"], [False], ["I"]),
+    ("radical-disproportionation", "[CH2:1][CH3:2].[CH2:3][CH3:4]>>[CH3:1][CH3:2].[CH2:3]=[CH2:4]", ["[CH2]C.[CH2]CC", "CC.CCC"], [False], ["I"]),
     ("three-component", "[CH3:1][Br:2].[CH3:3][I:4].[CH3:5][Cl:6]>>[CH3:1][I:4].[CH3:3][Cl:6].[CH3:5][Br:2]", ["CBr.CI.CCl", "CCBr.CCI.CCCl"], [False], ["I"]),
     ("single-symmetric", "[CH3:1][CH2:2][CH3:3]>>[CH3:1][CH:2]=[CH2:3]", ["CCC", "CC(C)C", "CCCC"], [False], ["I"]),
     ("ring-symmetric", "[cH:1]1[cH:2][cH:3][cH:4][cH:5][cH:6]1.[Br:7][Br:8]>>[cH:1]1[cH:2][cH:3][cH:4][cH:5][c:6]1[Br:7].[BrH:8]", ["c1ccccc1.BrBr", "Cc1ccccc1.BrBr"], [False], ["I"]),
@@ -170,7 +180,7 @@ def hand_pairs(full_all=True):
                 for core in (True, False):
                     for sub in (subs if (core or full_all) else subs[:1]):
                         out.append(dict(kind="hand", name="hand:%s:%s:%s:%s:%s" % (name, "centre" if core else "full", "bwd" if inv else "fwd", mode, sub),
-                                        tpl=dict(rsmi=r, core=core), sub=sub, invert=inv, mode=mode))
+                                        tpl=dict(rsmi=r, core=core), sub=sub, invert=inv, mode=mode, first_sub=subs[0]))
     return out
 
 
